@@ -92,7 +92,7 @@ def main(tier, seed):
     for fmt in FORMATS:
         plist = []
         for nm, sp in shapes:
-            if fmt == 'han' and quick and not nm.startswith(('atom/Interval', 'bin/Inheritance', 'vec/', 'sent/')): continue
+            if fmt == 'han' and quick: sp = c01.subst_names_partial(sp)
             for pipeline in ('enum', 'fold'):
                 pats = ['none', ('all', 1), ('all', 2)] if (not quick or pipeline == 'enum') else ['none', ('all', 1)]
                 for p in pats:
